@@ -39,7 +39,33 @@ func setupProject(spokfile string) {
 func teardownProject() {
 	if !sym.Symbolic() && root != "/p" {
 		os.RemoveAll(root)
+		if tempBase != "" {
+			os.RemoveAll(tempBase)
+			tempBase = ""
+		}
 	}
+}
+
+var tempBase string
+
+// relocateRoot moves the (still empty) project into a sub-directory with the given name, so that
+// the project directory's own path can contain characters that mean something to a glob matcher.
+func relocateRoot(name string) {
+	if sym.Symbolic() {
+		vfs.Remove(root + "/spokfile")
+		root = root + "/" + name
+		vfs.AddDir(root)
+		vfs.Cwd = root
+		vfs.AddFile(root+"/spokfile", "")
+		return
+	}
+	os.Remove(filepath.Join(root, "spokfile"))
+	tempBase = root
+	root = filepath.Join(root, name)
+	if err := os.MkdirAll(root, 0o755); err != nil {
+		panic(err)
+	}
+	os.WriteFile(filepath.Join(root, "spokfile"), nil, 0o644)
 }
 
 func putFile(rel, content string) {
@@ -110,7 +136,6 @@ func restoreCache(c cacheSnap) {
 		os.WriteFile(cachePath(), []byte(c.content), 0o644)
 	}
 }
-
 
 // writeRaw puts content into an existing file without passing through any write hook.
 func writeRaw(abs, content string) {
